@@ -413,12 +413,25 @@ class C03Adapter(Composite):
     parts = (K3Adapter, K3PAdapter)
 
 
+class K2DetAdapter(CaseAdapter):
+    module_name = 'k2det'
+    label = 'K2D (harness/k2det.py)'
+    N = dict(quick=15, thorough=300)
+    SEARCH = dict(quick=30, thorough=300)
+    rule = ('CSV datasets and query lists as K2 (one or two data sources behind the handler), each list put to fresh objects in its '
+            'original and in a shuffled order; every query must be answered identically; non-trivial = at least 10 queries')
+    assumptions = []
+
+    def accepts(self, case):
+        return 'files' in case and 'queries' in case
+
+
 class C13Adapter(Composite):
     parts = (K1Adapter, K7Adapter)
 
 
 class C18Adapter(Composite):
-    parts = (K7Adapter, K3DetAdapter)
+    parts = (K7Adapter, K3DetAdapter, K2DetAdapter)
 
 
 class K4K7Adapter(Composite):
